@@ -1072,6 +1072,108 @@ func runEvictRewrite(sc sweepScenario) sweepResult {
 	return res
 }
 
+// runDeleteBeforeAdd (op ord.x): a writer is parked between its table computation (the new entry is mapped) and the publication of its add
+// event (hook set.afterCompute / cmp.afterCompute); the key is invalidated and maintenance runs: the delete event is applied before the add
+// event.  The cache holds sc.Warm entries of weight 1 and its maximum is sc.Max > sc.Warm + 1: it never exceeds its maximum, so nothing may
+// leave with cause Overflow (Policy.tla: JustifiedTrue; Caffeine keeps these totals signed).
+func runDeleteBeforeAdd(sc sweepScenario) sweepResult {
+	res := sweepResult{T: "sweep", Sc: sc, TickNs: 1 << 30, NoPressure: 1}
+	clk := &stallClock{never: make(chan time.Time), stalled: make(chan struct{}), resume: make(chan struct{})}
+	clk.now.Store(int64(5) << 30)
+	var mu sync.Mutex
+	o := &Options[int, int]{
+		Clock:       clk,
+		MaximumSize: sc.Max,
+		OnDeletion: func(e DeletionEvent[int, int]) {
+			mu.Lock()
+			if e.Cause == CauseOverflow {
+				res.Overflow++
+			} else {
+				res.Other++
+			}
+			mu.Unlock()
+		},
+	}
+	if sc.Sized == 0 {
+		// a weighted cache: the racing entry is heavier than the others
+		o.MaximumSize = 0
+		o.MaximumWeight = uint64(sc.Max)
+		o.Weigher = func(k, v int) uint32 {
+			if k == 1 {
+				return 5
+			}
+			return 1
+		}
+	}
+	if sc.SyncExec == 1 {
+		o.Executor = func(fn func()) { fn() }
+	}
+	c := Must(o)
+	defer c.StopAllGoroutines()
+	for i := 0; i < sc.Warm; i++ {
+		c.Set(100+i, i)
+	}
+	c.CleanUp()
+	parked, resume := make(chan struct{}), make(chan struct{})
+	var gid atomic.Uint64
+	var once sync.Once
+	want := map[string]string{"ord.set": "set.afterCompute", "ord.compute": "cmp.afterCompute", "ord.setifabsent": "set.afterCompute"}[sc.Op]
+	verifhookInstall(func(id string, v uint64) {
+		if id == want && verifkit.GoID() == gid.Load() {
+			once.Do(func() {
+				close(parked)
+				<-resume
+			})
+		}
+	})
+	defer verifhookInstall(nil)
+	done := make(chan struct{})
+	go func() {
+		defer close(done)
+		gid.Store(verifkit.GoID())
+		switch sc.Op {
+		case "ord.set":
+			c.Set(1, 11)
+		case "ord.compute":
+			c.Compute(1, func(old int, found bool) (int, ComputeOp) { return 11, WriteOp })
+		case "ord.setifabsent":
+			c.SetIfAbsent(1, 11)
+		}
+	}()
+	select {
+	case <-parked:
+		res.Gated = 1
+	case <-done:
+	case <-time.After(3 * time.Second):
+		res.Hang = 1
+		return res
+	}
+	c.Invalidate(1) // its delete event is published, the add event of the parked writer is not
+	c.CleanUp()
+	time.Sleep(2 * time.Millisecond)
+	close(resume)
+	select {
+	case <-done:
+	case <-time.After(3 * time.Second):
+		res.Hang = 1
+		return res
+	}
+	time.Sleep(2 * time.Millisecond)
+	c.CleanUp()
+	time.Sleep(2 * time.Millisecond)
+	c.CleanUp()
+	for range c.All() {
+		res.Live++
+	}
+	for range c.Coldest() {
+		res.Cold++
+	}
+	res.Est = c.EstimatedSize()
+	mu.Lock()
+	defer mu.Unlock()
+	return res
+}
+
 type sweepResult struct {
 	T       string        `json:"t"`
 	Sc      sweepScenario `json:"sc"`
@@ -1205,6 +1307,10 @@ func TestVerifSweep(t *testing.T) {
 	defer w.Flush()
 	enc := json.NewEncoder(w)
 	for _, sc := range scs {
+		if len(sc.Op) > 4 && sc.Op[:4] == "ord." {
+			_ = enc.Encode(runDeleteBeforeAdd(sc))
+			continue
+		}
 		if sc.Op == "ev.rewrite" {
 			_ = enc.Encode(runEvictRewrite(sc))
 			continue
